@@ -66,8 +66,15 @@ fn fid(func: u8) -> u32 {
 pub fn instrument(bytes: &[u8], plan: &[Probe], api: u8) -> Result<Vec<u8>, PanicInfo> {
     catch(|| {
         let mut module = Module::parse(bytes, false).expect("harness: generated program parses");
-        let mut ordered: Vec<&Probe> = plan.iter().filter(|p| !matches!(p.mode, Mode::FuncEntry | Mode::FuncExit)).collect();
-        ordered.extend(plan.iter().filter(|p| matches!(p.mode, Mode::FuncEntry | Mode::FuncExit)));
+        // api 0 / 1: module iterator / function modifier, function-level probes issued last (the usage the
+        // repository's tests show); api 2: function modifier, strictly in plan order (it is finished after
+        // every probe, so a function-level mode does not stay active)
+        let strict = api == 2;
+        let api = if api == 2 { 1 } else { api };
+        let mut ordered: Vec<&Probe> = if strict { plan.iter().collect() } else { plan.iter().filter(|p| !matches!(p.mode, Mode::FuncEntry | Mode::FuncExit)).collect() };
+        if !strict {
+            ordered.extend(plan.iter().filter(|p| matches!(p.mode, Mode::FuncEntry | Mode::FuncExit)));
+        }
         for p in ordered {
             let f = fid(p.func);
             let code = [Operator::I32Const { value: p.id }, Operator::Call { function_index: F_PROBE }];
@@ -580,6 +587,9 @@ pub struct Family {
     pub modes: Vec<Mode>,
     pub probes: usize,
     pub same_site_twice: bool,
+    /// every plan additionally with one ordinary `before` probe on the first mark of main, injected
+    /// after the plan's probes and, separately, before them (order of API calls on one function)
+    pub with_ordinary: bool,
 }
 
 fn g(max_nodes: usize, max_depth: usize, leaves: &[Leaf], blocks: bool, loops: bool, ifs: bool, else_arms: bool, conds: &[Cond], results: u8) -> Grammar {
@@ -614,8 +624,27 @@ fn run_families(run: &mut Run, fams: &[Family], judged_modes: &[Mode], judge_beh
             .map(|(pi, prog)| {
                 let ss = sites(prog, &fam.modes);
                 let mut v = vec![];
-                for (k, plan) in plans(&ss, fam.probes, fam.same_site_twice).into_iter().enumerate() {
-                    let api = ((pi + k) % 2) as u8;
+                let mut all_plans: Vec<(Vec<Probe>, Option<u8>)> = plans(&ss, fam.probes, fam.same_site_twice).into_iter().map(|p| (p, None)).collect();
+                if fam.with_ordinary {
+                    let em = emit(prog);
+                    if let Some(at) = em.roles[0].iter().position(|r| matches!(r, Role::MarkConst)) {
+                        let ord = Probe { func: 0, at, mode: Mode::Before, id: 1900 };
+                        let base: Vec<Vec<Probe>> = all_plans.iter().map(|(p, _)| p.clone()).collect();
+                        for pl in base {
+                            let mut last = pl.clone();
+                            last.push(ord.clone());
+                            let mut first = vec![ord.clone()];
+                            first.extend(pl.iter().cloned());
+                            // through both API kinds, the modifier strictly in plan order
+                            all_plans.push((last.clone(), Some(0)));
+                            all_plans.push((last, Some(2)));
+                            all_plans.push((first.clone(), Some(0)));
+                            all_plans.push((first, Some(2)));
+                        }
+                    }
+                }
+                for (k, (plan, forced_api)) in all_plans.into_iter().enumerate() {
+                    let api = forced_api.unwrap_or(((pi + k) % 2) as u8);
                     let case = Case { program: prog.clone(), plan, api };
                     let keep = tier == Tier::Thorough || (pi + k) % 97 == 0;
                     let r = match catch(|| judge(&case, keep)) {
@@ -686,13 +715,13 @@ pub fn check(id: &'static str, tier: Tier) -> i32 {
             let mut fams = vec![];
             for results in 0..3u8 {
                 let gr = g(if results == 0 { n } else { n - 1 }, 2, &[Mark, Br, BrIf, Ret, Unr, Call, GSet, Store, Div, RetCall, Throw], true, true, true, true, if tier == Tier::Quick { &[Cond::A, Cond::Ctr] } else { CONDS }, results);
-                fams.push(Family { name: ["results=[]", "results=[i32]", "results=[i32,i64]"][results as usize], programs: programs(&gr, &callees), modes: all.clone(), probes: if results == 0 { tier.pick(1, 2) } else { 1 }, same_site_twice: true });
+                fams.push(Family { name: ["results=[]", "results=[i32]", "results=[i32,i64]"][results as usize], programs: programs(&gr, &callees), modes: all.clone(), probes: if results == 0 { tier.pick(1, 2) } else { 1 }, same_site_twice: true, with_ordinary: false });
             }
             // two probes on small programs in the quick tier
             let gr = g(2, 2, &[Mark, Br, BrIf, Ret, Call, GSet], true, true, true, true, CONDS, 0);
-            fams.push(Family { name: "two probes, small programs", programs: programs(&gr, &callees), modes: all.clone(), probes: 2, same_site_twice: true });
+            fams.push(Family { name: "two probes, small programs", programs: programs(&gr, &callees), modes: all.clone(), probes: 2, same_site_twice: true, with_ordinary: false });
             let gr = g(tier.pick(2, 3), 2, &[Mark, BrTable], true, false, true, false, &[Cond::A], 0);
-            fams.push(Family { name: "br_table programs", programs: programs(&gr, &callees), modes: all, probes: tier.pick(1, 2), same_site_twice: false });
+            fams.push(Family { name: "br_table programs", programs: programs(&gr, &callees), modes: all, probes: tier.pick(1, 2), same_site_twice: false, with_ordinary: false });
             (fams, vec![Mode::Before, Mode::After], true)
         }
         "C17" => {
@@ -700,39 +729,47 @@ pub fn check(id: &'static str, tier: Tier) -> i32 {
             let mut fams = vec![];
             for results in 0..3u8 {
                 let gr = g(if results == 0 { tier.pick(3, 4) } else { tier.pick(2, 3) }, 3, &[Mark, Br, BrIf, Ret, Unr, Throw, Call, RetCall, Div], true, results == 0, true, true, if tier == Tier::Quick { &[Cond::A, Cond::Ctr] } else { CONDS }, results);
-                fams.push(Family { name: ["exits results=[]", "exits results=[i32]", "exits results=[i32,i64]"][results as usize], programs: programs(&gr, &callees), modes: modes.clone(), probes: tier.pick(2, 4), same_site_twice: true });
+                fams.push(Family { name: ["exits results=[]", "exits results=[i32]", "exits results=[i32,i64]"][results as usize], programs: programs(&gr, &callees), modes: modes.clone(), probes: tier.pick(2, 4), same_site_twice: true, with_ordinary: false });
             }
             // one node more, over the exit-relevant statements only (no loops, one condition): reaches
             // `if c {transfer} else {exit}` and exits behind dead code, which the lowering has to treat
             // per arm (seeded change C17b)
             let gr = g(tier.pick(4, 5), 3, &[Mark, Br, Ret, Unr, RetCall, Throw], true, false, true, true, &[Cond::A], 0);
-            fams.push(Family { name: "exits in both arms and behind dead code", programs: programs(&gr, &callees), modes: modes.clone(), probes: tier.pick(1, 2), same_site_twice: false });
+            fams.push(Family { name: "exits in both arms and behind dead code", programs: programs(&gr, &callees), modes: modes.clone(), probes: tier.pick(1, 2), same_site_twice: false, with_ordinary: false });
+            let gr = g(tier.pick(3, 4), 3, &[Mark, Br, Ret, Unr], true, false, true, true, &[Cond::A], 0);
+            fams.push(Family { name: "entry/exit probes with an ordinary probe on the same function", programs: programs(&gr, &callees), modes: modes.clone(), probes: 2, same_site_twice: false, with_ordinary: true });
             let gr = g(tier.pick(2, 3), 3, &[Mark, BrTable, Ret], true, false, true, false, &[Cond::A, Cond::B], 0);
-            fams.push(Family { name: "br_table to function label", programs: programs(&gr, &callees), modes: modes.clone(), probes: 2, same_site_twice: false });
+            fams.push(Family { name: "br_table to function label", programs: programs(&gr, &callees), modes: modes.clone(), probes: 2, same_site_twice: false, with_ordinary: false });
             (fams, modes, true)
         }
         "C18" => {
             let modes = vec![Mode::BlockEntry];
             let gr = if tier == Tier::Quick { g(4, 3, &[Mark, Br, BrIf], true, true, true, true, &[Cond::A, Cond::Ctr], 0) } else { g(5, 3, &[Mark, Br, BrIf, Ret], true, true, true, true, CONDS, 0) };
-            let fams = vec![Family { name: "nested blocks/loops/ifs", programs: programs(&gr, &callees), modes: modes.clone(), probes: tier.pick(2, 3), same_site_twice: true }];
+            let mut fams = vec![Family { name: "nested blocks/loops/ifs", programs: programs(&gr, &callees), modes: modes.clone(), probes: tier.pick(2, 3), same_site_twice: true, with_ordinary: false }];
+            let gr = g(tier.pick(3, 4), 3, &[Mark, BrIf], true, true, true, true, &[Cond::A, Cond::Ctr], 0);
+            fams.push(Family { name: "block-entry probes with an ordinary probe on the same function", programs: programs(&gr, &callees), modes: modes.clone(), probes: 2, same_site_twice: false, with_ordinary: true });
             (fams, modes, true)
         }
         "C19" => {
             let modes = vec![Mode::BlockExit];
             let gr = if tier == Tier::Quick { g(4, 3, &[Mark, Br, BrIf], true, true, true, true, &[Cond::A, Cond::Ctr], 0) } else { g(5, 3, &[Mark, Br, BrIf, Ret], true, true, true, true, CONDS, 0) };
-            let fams = vec![Family { name: "nested constructs inside if-arms", programs: programs(&gr, &callees), modes: modes.clone(), probes: tier.pick(2, 3), same_site_twice: true }];
+            let mut fams = vec![Family { name: "nested constructs inside if-arms", programs: programs(&gr, &callees), modes: modes.clone(), probes: tier.pick(2, 3), same_site_twice: true, with_ordinary: false }];
+            let gr = g(tier.pick(3, 4), 3, &[Mark, BrIf], true, true, true, true, &[Cond::A, Cond::Ctr], 0);
+            fams.push(Family { name: "block-exit probes with an ordinary probe on the same function", programs: programs(&gr, &callees), modes: modes.clone(), probes: 2, same_site_twice: false, with_ordinary: true });
             (fams, modes, true)
         }
         "C20" => {
             let modes = vec![Mode::SemanticAfter];
             let mut fams = vec![];
             let gr = if tier == Tier::Quick { g(4, 3, &[Mark, Br, BrIf], true, true, true, true, &[Cond::A, Cond::Ctr], 0) } else { g(5, 3, &[Mark, Br, BrIf, Ret], true, true, true, true, CONDS, 0) };
-            fams.push(Family { name: "branches inside loops and blocks", programs: programs(&gr, &callees), modes: modes.clone(), probes: tier.pick(2, 3), same_site_twice: true });
+            fams.push(Family { name: "branches inside loops and blocks", programs: programs(&gr, &callees), modes: modes.clone(), probes: tier.pick(2, 3), same_site_twice: true, with_ordinary: false });
             let gr = g(tier.pick(3, 4), 3, &[Mark, BrTable, BrIf], true, true, true, false, &[Cond::A, Cond::Ctr], 0);
-            fams.push(Family { name: "br_table across depths and the function label", programs: programs(&gr, &callees), modes: modes.clone(), probes: tier.pick(2, 3), same_site_twice: false });
+            fams.push(Family { name: "br_table across depths and the function label", programs: programs(&gr, &callees), modes: modes.clone(), probes: tier.pick(2, 3), same_site_twice: false, with_ordinary: false });
+            let gr = g(tier.pick(3, 4), 3, &[Mark, Br, BrIf], true, false, true, true, &[Cond::A], 0);
+            fams.push(Family { name: "semantic-after probes with an ordinary probe on the same function", programs: programs(&gr, &callees), modes: modes.clone(), probes: 2, same_site_twice: false, with_ordinary: true });
             for results in 1..3u8 {
                 let gr = g(3, 2, &[Mark, Br, BrIf], true, false, true, true, &[Cond::A, Cond::B], results);
-                fams.push(Family { name: ["", "results=[i32]", "results=[i32,i64]"][results as usize], programs: programs(&gr, &callees), modes: modes.clone(), probes: 2, same_site_twice: false });
+                fams.push(Family { name: ["", "results=[i32]", "results=[i32,i64]"][results as usize], programs: programs(&gr, &callees), modes: modes.clone(), probes: 2, same_site_twice: false, with_ordinary: false });
             }
             (fams, modes, true)
         }
